@@ -389,6 +389,15 @@ def add_violation(ctx, sig, what, replay):
     ctx.violations.append({"sig": sig, "what": what, "replay": replay})
 
 
+def add_extra(ctx, sig, what):
+    """An observation about behaviour outside the listed properties (specification coverage grown beyond them).
+    It is reported and recorded in the evidence but is no verdict on any property: exit codes are unaffected."""
+    if not hasattr(ctx, "extras"):
+        ctx.extras = {}
+    e = ctx.extras.setdefault(sig, {"what": what, "n": 0})
+    e["n"] += 1
+
+
 def finish(ctx, level, coverage, assumptions):
     """Match violations against the known findings, write evidence and replay files, print the verdict lines."""
     known = [k for k in load_known() if k.get("property") == ctx.pid and k.get("status") == "known"]
@@ -429,6 +438,11 @@ def finish(ctx, level, coverage, assumptions):
             log("  ... (%d further distinct signatures not listed)" % (len({x['sig'] for x in new}) - nprinted))
             break
     cov = dict(coverage)
+    extras = getattr(ctx, "extras", {})
+    for sig, e in sorted(extras.items()):
+        log("BEYOND-PROPERTIES: %s [%d occurrence(s)]: %s" % (sig, e["n"], e["what"][:400]))
+    if extras:
+        cov["beyond_listed_properties"] = {sig: {"occurrences": e["n"], "example": e["what"][:600]} for sig, e in sorted(extras.items())}
     cov["tlc_runs"] = ctx.tlc_runs
     cov["known_findings_hit"] = {k: n for k, (e, n) in hit.items()}
     ev = {"property_id": ctx.pid, "tier": ctx.tier, "seed": ctx.seed, "level": level, "coverage": cov,
